@@ -423,7 +423,7 @@ def run_matrix(world, contract, rows, roles, states, rng=None, share=1.0):
                 cur = world.dump()
                 changed = cur != base
                 cell = dict(row=row, role=role, state=st, skipped=False, outcome=classify(r), msg=r.msg, ok=r.ok,
-                            changed=changed, call=[call.func, [a.hex() for a in call.args],
+                            changed=changed, frm=call.frm, call=[call.func, [a.hex() for a in call.args],
                                                    [[t.decode(), n, v] for (t, n, v) in call.pays], call.egld])
                 if watch and r.ok:
                     cell["deltas"] = {k: token_total(vm, *k) - pre_w[k] for k in watch}
@@ -453,7 +453,6 @@ class PairWorldA(World):
         self.P = self.user("principal")
         self.pair = self.reserve("pair1")
         self.target["pair"] = self.pair
-        self.coll = self.sc("collector")
         self.dest = self.user("feedest")
         self.must(vm.deploy(self.owner, "pair", [T1, T2, A[10 + P_ROUTER], self.owner, top_u(300), top_u(50),
                                                  A[10 + P_ADDER], A[R_ADMIN]], new_addr=self.pair), "pair")
@@ -463,14 +462,26 @@ class PairWorldA(World):
             vm.roles(self.pair, t, ["ESDTRoleLocalBurn"])
         self.ocall(self.pair, "addToPauseWhitelist", [A[R_PAUSER]])
         self.ocall(self.pair, "whitelist", [A[10 + P_WL]])
+        # a real fees collector behind the pair, a locking SC address, a trusted pair entry
+        efm = self.reserve("efactory")
+        self.must(vm.deploy(self.owner, "energy-factory-mock", [], new_addr=efm), "efact-mock")
+        self.coll = self.reserve("collector")
+        self.must(vm.deploy(self.owner, "fees-collector", [LOCKED, efm], new_addr=self.coll), "collector")
+        self.ocall(self.coll, "addKnownContracts", [self.pair])
+        self.ocall(self.coll, "addKnownTokens", [T1, T2])
+        self.ocall(self.pair, "setupFeesCollector", [self.coll, top_u(50000)])
+        self.ocall(self.pair, "setLockingScAddress", [self.dummy_sc])
+        self.ocall(self.pair, "addTrustedSwapPair", [self.dummy_sc, T1, b"OTHER-abcdef"])
         for a in A.values():
             vm.setbal(a, T1, 0, BIG)
             vm.setbal(a, T2, 0, BIG)
         self.snap["pair"] = {S_INACTIVE: self.take_snapshot()}
-        # live: the adder bootstraps, everybody holds LP
+        # live: the adder bootstraps, everybody holds LP; one price observation per round
         self.must(vm.call(A[10 + P_ADDER], self.pair, "addInitialLiquidity", [], [(T1, 0, 10 ** 9), (T2, 0, 3 * 10 ** 9)]))
-        for a in A.values():
+        for i, a in enumerate(A.values()):
+            self.set_block(11 + i, 11 + i, 5, 66 + 6 * i)
             self.must(vm.call(a, self.pair, "addLiquidity", [top_u(1), top_u(1)], [(T1, 0, 10 ** 7), (T2, 0, 3 * 10 ** 7)]))
+        self.set_block(1000, 1000, 5, 6000)
         self.snap["pair"][S_PARTIAL] = self.take_snapshot()          # addInitialLiquidity leaves PartialActive
         self.ocall(self.pair, "resume")
         self.snap["pair"][S_ACTIVE] = self.take_snapshot()
@@ -514,7 +525,7 @@ class PairWorldA(World):
         return Call([self.A["pair"][10 + P_WL]])
 
     def ep__addTrustedSwapPair(self, row, role, st):
-        return Call([self.dummy_sc, T1, b"OTHER-abcdef"])
+        return Call([self.dummy_sc, T2, b"OTHER-abcdef"])
 
     def ep__removeTrustedSwapPair(self, row, role, st):
         return Call([T1, b"OTHER-abcdef"])
@@ -564,6 +575,42 @@ class PairWorldA(World):
     def ep__getPermissions(self, row, role, st):
         return Call([self.owner])
 
+    # safe-price views (they read a pair's storage by address: here the pair itself)
+    def pay1(self):
+        return nest_bytes(T1) + nest_u64(0) + nest_big(1000)
+
+    def ep__getLpTokensSafePriceByDefaultOffset(self, row, role, st):
+        return Call([self.pair, top_u(1000)])
+
+    def ep__getLpTokensSafePriceByRoundOffset(self, row, role, st):
+        return Call([self.pair, top_u(100), top_u(1000)])
+
+    def ep__getLpTokensSafePriceByTimestampOffset(self, row, role, st):
+        return Call([self.pair, top_u(600), top_u(1000)])
+
+    def ep__getLpTokensSafePrice(self, row, role, st):
+        return Call([self.pair, top_u(900), top_u(1000), top_u(1000)])
+
+    def ep__getSafePriceByDefaultOffset(self, row, role, st):
+        return Call([self.pair, self.pay1()])
+
+    def ep__getSafePriceByRoundOffset(self, row, role, st):
+        return Call([self.pair, top_u(100), self.pay1()])
+
+    def ep__getSafePriceByTimestampOffset(self, row, role, st):
+        return Call([self.pair, top_u(600), self.pay1()])
+
+    def ep__getSafePrice(self, row, role, st):
+        return Call([self.pair, top_u(900), top_u(1000), self.pay1()])
+
+    def ep__getPriceObservation(self, row, role, st):
+        return Call([self.pair, top_u(950)])
+
+    def ep__updateAndGetSafePrice(self, row, role, st):
+        return Call([self.pay1()])
+
+    def ep__updateAndGetTokensForGivenPositionWithSafePrice(self, row, role, st):
+        return Call([top_u(1000)])
 
 
 REW, LPF, FARMTK = b"REW-abcdef", b"LPFARM-abcdef", b"FARM-abcdef"
@@ -629,6 +676,7 @@ class FarmWorldA(World):
             self.ocall(self.efact, "addSCAddressToWhitelist", [self.farm])
         adm = A[R_ADMIN]
         self.must(vm.call(adm, self.farm, "setPerBlockRewardAmount", [top_u(10 ** 6)]))
+        self.must(vm.call(adm, self.farm, "setBoostedYieldsFactors", [top_u(10), top_u(3), top_u(2), top_u(1), top_u(1)]))
         self.must(vm.call(adm, self.farm, "startProduceRewards"))
         everyone = list(A.values()) + [self.P]
         for a in everyone:
@@ -726,6 +774,9 @@ class FarmWorldA(World):
     def ep__getUserTotalFarmPosition(self, row, role, st):
         return Call([self.P])
 
+    def ep__getCurrentClaimProgress(self, row, role, st):
+        return Call([self.P]) if st != S_INACTIVE else None      # empty before the first position (decode error, not a guard)
+
 
 class FarmLockedWorldA(FarmWorldA):
     CODE = "farm-with-locked-rewards"
@@ -767,6 +818,7 @@ class StakingWorldA(World):
             vm.setbal(a, STK, 0, BIG)
         self.must(vm.call(adm, self.farm, "topUpRewards", [], [(STK, 0, 10 ** 15)]))
         self.must(vm.call(adm, self.farm, "setPerBlockRewardAmount", [top_u(10 ** 4)]))
+        self.must(vm.call(adm, self.farm, "setBoostedYieldsFactors", [top_u(10), top_u(3), top_u(2), top_u(1), top_u(1)]))
         self.must(vm.call(adm, self.farm, "startProduceRewards"))
         self.snap[c] = {S_INACTIVE: self.take_snapshot()}
         self.ocall(self.farm, "resume")
@@ -876,6 +928,9 @@ class StakingWorldA(World):
 
     def ep__setBurnRoleForAddress(self, row, role, st):
         return Call([self.dummy_sc])
+
+    def ep__getCurrentClaimProgress(self, row, role, st):
+        return Call([self.P]) if st != S_INACTIVE else None      # empty before the first position (decode error, not a guard)
 
 
 class HubWorldA(World):
@@ -1135,6 +1190,7 @@ class FeesWorldA(World):
         self.ocall(self.coll, "addKnownContracts", [A[10 + P_KNOWN]])
         self.ocall(self.coll, "addKnownTokens", [FEE_T])
         self.ocall(self.coll, "addSCAddressToWhitelist", [A[10 + P_WL]])
+        self.ocall(self.coll, "setLockingScAddress", [self.dummy_sc])
         everyone = list(A.values()) + [self.P]
         for a in everyone:
             vm.setbal(a, FEE_T, 0, BIG)
@@ -1169,7 +1225,7 @@ class FeesWorldA(World):
         return Call([self.A["fees-collector"][10 + P_WL]])
 
     def ep__updateEnergyForUser(self, row, role, st):
-        return Call([self.P])
+        return Call([self.P], block=(15, 15, 5, 90))        # the week of the principal's last claim
 
     def ep__getAccumulatedFees(self, row, role, st):
         return Call([top_u(1), FEE_T])
